@@ -200,3 +200,10 @@ Example sd_in_reverted_frame_undone :
   model_obs w_sd_in_reverted_frame = impl_obs w_sd_in_reverted_frame /\ b_ok (model_obs w_sd_in_reverted_frame) = true /\
   b_supply (model_obs w_sd_in_reverted_frame) = 0 /\ b_alive (model_obs w_sd_in_reverted_frame) = [true; true; true].
 Proof. vm_compute. auto. Qed.
+(** ... so that a third, committed self-destruct pays out exactly what the contract had received: the
+    signer gets the 1000 (a revert that forgot to restore the balance would have destroyed them) *)
+Example sd_third_after_reverted_pays_out :
+  model_obs w_sd_third_after_reverted = impl_obs w_sd_third_after_reverted /\
+  b_ok (model_obs w_sd_third_after_reverted) = true /\
+  b_supply (model_obs w_sd_third_after_reverted) = 0 /\ nth 0 (b_bal (model_obs w_sd_third_after_reverted)) 0 = 6000.
+Proof. vm_compute. auto. Qed.
